@@ -422,7 +422,108 @@ def mut_dispatch(repo: Repo) -> List[Mutant]:
     return [Mutant("summation-solver-for-cyclic-systems", ov, "fire", "dispatch", control=True)] if ov else []
 
 
+# ------------------------------------------------------------------ hand-written memo tables are keyed by every option their value depends on
+def _settings_names(repo: Repo) -> Set[str]:
+    m = repo.modules.get("settings.py") if hasattr(repo, "modules") else None
+    names: Set[str] = set()
+    tree = m.tree if m is not None else None
+    if tree is None:
+        return names
+    for st in tree.body:
+        if isinstance(st, ast.Assign):
+            names |= {t.id for t in st.targets if isinstance(t, ast.Name)}
+        elif isinstance(st, ast.AnnAssign) and isinstance(st.target, ast.Name):
+            names.add(st.target.id)
+    return names
+
+
+def rule_memo_key(repo: Repo) -> List[Ob]:
+    """C[K] = f(..., option, ...) next to a membership test on C (the memo idiom), where C outlives the call (an attribute, a
+    __dict__ / getattr lookup on another object, a module or class level table): every strategy option that f's arguments
+    mention must be part of K -- otherwise the value computed under the first option setting is handed out for all later ones."""
+    obs = []
+    opts = _settings_names(repo)
+    n_sites = 0
+    for f in repo.functions:
+        if f.relpath.startswith(("tests/", "benchmarks/", "documentation/")):
+            continue
+        from ..shape import expanded
+        fnode = expanded(repo, f)        # a memo whose test-and-fill block was moved into a helper is read in place
+        stores = [st for st in walk_no_nested(fnode) if isinstance(st, ast.Assign) and len(st.targets) == 1 and isinstance(st.targets[0], ast.Subscript)
+                  and any(isinstance(x, ast.Call) for x in ast.walk(st.value))]
+        if not stores:
+            continue
+        defs = Defs(fnode, f.params()[0] if f.params() and f.cls is not None else None)
+        for st in stores:
+            cont, keye = st.targets[0].value, st.targets[0].slice
+            ctext = src(cont)
+            # the memo idiom: a membership test / lookup of the same key in the same container in this function
+            tested = any(isinstance(x, ast.Compare) and len(x.ops) == 1 and isinstance(x.ops[0], (ast.In, ast.NotIn)) and src(x.comparators[0]) == ctext and src(x.left) == src(keye)
+                         for x in walk_no_nested(fnode))
+            if not tested:
+                continue
+            # the container outlives the call
+            def origin(e):
+                # the one plain assignment `name = <expr>` of a local (item stores into it are not re-definitions)
+                if isinstance(e, ast.Name):
+                    plain = [a.value for a in walk_no_nested(fnode) if isinstance(a, ast.Assign) and len(a.targets) == 1 and isinstance(a.targets[0], ast.Name) and a.targets[0].id == e.id]
+                    if len(plain) == 1:
+                        return plain[0]
+                return e
+            base = origin(cont)
+            durable = isinstance(base, ast.Attribute) or (isinstance(base, ast.Call) and (call_name(base) in ("setdefault", "getattr", "vars") or "__dict__" in src(base))) or \
+                (isinstance(base, ast.Name) and base.id not in defs.defs and base.id not in defs.params)
+            if not durable:
+                continue
+            n_sites += 1
+            used = set()
+            for c in [x for x in ast.walk(st.value) if isinstance(x, ast.Call)]:
+                for a in list(c.args) + [k.value for k in c.keywords]:
+                    for x in ast.walk(a):
+                        nm = x.attr if isinstance(x, ast.Attribute) else x.id if isinstance(x, ast.Name) else None
+                        if nm in opts:
+                            used.add(nm)
+            kexpr = origin(keye)
+            in_key = {x.attr if isinstance(x, ast.Attribute) else x.id for x in ast.walk(kexpr) if isinstance(x, (ast.Attribute, ast.Name))}
+            missing = sorted(used - in_key)
+            key = f"{f.relpath}::{f.qualname}::memo::{ctext[:30]}"
+            if missing:
+                obs.append(Ob("G3-memo-key", key, f.relpath, st.lineno, f.qualname, False,
+                              f"`{src(st)[:70]}` caches a value computed with the option(s) {missing} under the key `{src(kexpr)[:50]}`, which does not contain them: "
+                              "a later request with another setting gets the value of the first one"))
+            else:
+                obs.append(Ob("G3-memo-key", key, f.relpath, st.lineno, f.qualname, True, "the memo key contains every strategy option the cached value is computed with"))
+    obs.append(Ob("G3-memo-key", "repo::memo-census", "settings.py", 1, "", True, f"{n_sites} hand-written memo table(s) over {len(opts)} option names examined"))
+    return obs
+
+
+def mut_memo_key(repo: Repo) -> List[Mutant]:
+    new = ("known = self.recurrences.__dict__.setdefault('known_roots', {})\n        kind = (self.numeric_roots, self.numeric_croots)\n        if kind not in known:\n"
+           "            known[kind] = get_all_roots(self.characteristic_poly, self.numeric_roots, self.numeric_croots, self.numeric_eps)\n        roots, self._is_exact = known[kind]")
+    good = new.replace("(self.numeric_roots, self.numeric_croots)", "(self.numeric_roots, self.numeric_croots, self.numeric_eps)")
+    out = []
+    def tr_factory(text):
+        def tr(tree):
+            fn = find_def(tree, "CyclicSolver._compute_general_solution")
+            if fn is None:
+                return False
+            for i, st in enumerate(fn.body):
+                if isinstance(st, ast.Assign) and isinstance(st.value, ast.Call) and call_name(st.value) == "get_all_roots":
+                    fn.body[i:i + 1] = ast.parse("def _f(self):\n        " + text).body[0].body
+                    return True
+            return False
+        return tr
+    ov = mutate_module(repo, CY, tr_factory(new))
+    if ov:
+        out.append(Mutant("roots-cached-without-eps", ov, "fire", "memo::", control=True))
+    ov = mutate_module(repo, CY, tr_factory(good))
+    if ov:
+        out.append(Mutant("benign-roots-cached-with-all-options", ov, "silent"))
+    return out
+
+
 RULES = {
+    "MEMOKEY": Rule("G3-memo-key", rule_memo_key, 1, "hand-written memo tables that outlive a call are keyed by every strategy option their value is computed with", mut_memo_key, soft=True),
     "ANSATZ": Rule(R, rule_ansatz, 2, "general solution of the characteristic-root solver: m terms C*n**i*r**n (i < m) per non-zero root of multiplicity m", mut_ansatz, soft=True),
     "FIT": Rule(R, rule_fit, 2, "the constants are fitted on (ansatz at n, n-th iterate) pairs taken after the transient of the root 0", mut_fit, soft=True),
     "GEOMSUM": Rule(R, rule_geometric_sum, 1, "the summation solver is the geometric-sum identity (exponents, bounds and start index compared as rational functions)", mut_geometric_sum, soft=True),
